@@ -4,6 +4,7 @@ import re
 import astlib as A
 import fe
 import groups
+import pe
 import wit
 from report import Finding
 
@@ -420,6 +421,97 @@ def check_p4(rep, idx, rule_id="P4", first_order_only=False):
                                   % (float(bad[0]), float(bad[1]), base), f, l))
 
 
+def check_p5(rep):
+    """P5: the concepts that make Default mode prefer the callable's own derivatives accept every documented way of returning them"""
+    rep.rule("P5", "diffable_order1/2 accept jacobian()/hessian() returned by value (dense, sparse), by const reference and as std::reference_wrapper; reject callables without them", minimum=8)
+    prelude = (groups.PRELUDE + "#include <functional>\n#include <Eigen/Sparse>\n#include <smooth/diff.hpp>\n"
+               "using V3 = Eigen::Vector3d;\nusing M3 = Eigen::Matrix3d;\nusing H3 = Eigen::Matrix<double, 3, 9>;\n"
+               "using W = decltype(smooth::wrt(std::declval<const V3 &>()));\n")
+    kinds = [("byval", "M3", "H3", "M3::Identity()", "H3::Zero()"),
+             ("cref", "const M3 &", "const H3 &", "J", "H"),
+             ("refwrap", "std::reference_wrapper<const M3>", "std::reference_wrapper<const H3>", "std::cref(J)", "std::cref(H)"),
+             ("sparse", "Eigen::SparseMatrix<double>", "Eigen::SparseMatrix<double>", "Eigen::SparseMatrix<double>(3, 3)", "Eigen::SparseMatrix<double>(3, 9)")]
+    pos = []
+    for nm, jt, ht, je, he in kinds:
+        d = ("struct F_%s {\n  M3 J = M3::Identity(); H3 H = H3::Zero();\n  V3 operator()(const V3 & x) const { return x; }\n"
+             "  %s jacobian(const V3 &) const { return %s; }\n  %s hessian(const V3 &) const { return %s; }\n};\n" % (nm, jt, je, ht, he))
+        pos.append(wit.Wit("d1_%s" % nm, "", d + "static_assert(smooth::diff::detail::diffable_order1<F_%s &, W>, \"jacobian() returning %s is not recognised\");\n" % (nm, jt.replace('"', "")),
+                           what="diffable_order1 with jacobian() -> %s" % jt, group="diffable_order1"))
+        pos.append(wit.Wit("d2_%s" % nm, "", d.replace("F_%s" % nm, "G_%s" % nm) + "static_assert(smooth::diff::detail::diffable_order2<G_%s &, W>, \"hessian() returning %s is not recognised\");\n" % (nm, ht.replace('"', "")),
+                           what="diffable_order2 with hessian() -> %s" % ht, group="diffable_order2"))
+    d = "struct F_none { V3 operator()(const V3 & x) const { return x; } };\nstatic_assert(!smooth::diff::detail::diffable_order1<F_none &, W>, \"a callable without jacobian() must not be analytic\");\n"
+    pos.append(wit.Wit("d1_none", "", d, what="no jacobian() -> not diffable_order1", group="diffable_order1"))
+    d = ("struct F_jonly { V3 operator()(const V3 & x) const { return x; } M3 jacobian(const V3 &) const { return M3::Identity(); } };\n"
+         "static_assert(smooth::diff::detail::diffable_order1<F_jonly &, W> && !smooth::diff::detail::diffable_order2<F_jonly &, W>, \"jacobian-only callable\");\n")
+    pos.append(wit.Wit("d12_jonly", "", d, what="jacobian() only -> order1 but not order2", group="diffable_order2"))
+    failed, unattr, raw = wit.compile_batch(prelude, pos, name="c08p5")
+    if unattr:
+        rep.broke("P5 batch has unattributable errors: %s" % unattr[:2])
+    for w in pos:
+        bad = w.id in failed
+        rep.instance("P5", w.group, w.id, ok=not bad, sample={"obligation": w.what})
+        if bad:
+            rep.violation(Finding("P5", w.group, w.id, "%s -- %s" % (failed[w.id][0][-160:], w.what), "include/smooth/detail/diff_impl.hpp", None))
+
+
+def check_p6_p7(rep, idx):
+    from fractions import Fraction
+    rep.rule("P6", "the index-subset wrapper copies the reduced arguments into the full argument tuple (never moves from them)", minimum=1)
+    rep.rule("P7", "dr_numerical<2> stores d2(j) at H(I0 + k0, j*nx + I1 + k1): output blocks of width nx, stacked horizontally", minimum=1)
+    # P6
+    subs = [d for d in idx if d.kind in A.FUNCS and d.pattern and d.qname.split("::")[-1] == "dr" and A.body(d.node) is not None and len(A.params(d.node)) == 3]
+    subs = [d for d in subs if any(x.get("kind") == "LambdaExpr" for x in A.walk(A.body(d.node)))]
+    if len(subs) != 1:
+        rep.broke("P6: dr(f, x, index_sequence) with the wrapping lambda not found (%d)" % len(subs))
+    else:
+        d = subs[0]
+        lam = [x for x in A.walk(A.body(d.node)) if x.get("kind") == "LambdaExpr"]
+        folds = [x for l_ in lam for x in A.walk(l_) if x.get("kind") == "CXXFoldExpr"]
+        txt = [A.ntext(x) for x in folds if "get<Idx>" in A.ntext(x)]
+        if len(txt) != 1:
+            rep.broke("P6: the fold that places the reduced arguments was not found")
+        else:
+            moved = "std::move(" in txt[0] or "std::forward" in txt[0] or "std::exchange" in txt[0] or "swap(" in txt[0]
+            f, l = A.loc(folds[0])
+            rep.instance("P6", "dr(f, x, index_sequence)", "fold", ok=not moved, sample={"file": fe.rel(f), "line": l, "fold": txt[0][:80]})
+            if moved:
+                rep.violation(Finding("P6", "dr(f, x, index_sequence)", "fold",
+                                      "the wrapper moves from its reduced arguments (`%s`): they are dr_numerical's working copies (or the caller's own objects) and are "
+                                      "read again for the next perturbation, so heap-backed arguments lose their value after the first evaluation" % txt[0][:80], f, l))
+    # P7
+    nums = [d for d in idx if d.kind in A.FUNCS and d.pattern and d.qname.split("::")[-1] == "dr_numerical" and A.body(d.node) is not None]
+    if len(nums) != 1:
+        rep.broke("P7: dr_numerical not found")
+        return
+    d = nums[0]
+    found = 0
+    for x in A.walk(A.body(d.node)):
+        if x.get("kind") in ("BinaryOperator", "CXXOperatorCallExpr"):
+            e = A.to_expr(x)
+            if e[0] == "op" and e[1] == "=" and e[2][0] == "call" and e[2][1] == "H" and len(e[2][2]) == 2:
+                found += 1
+                r_, c_ = e[2][2]
+                f, l = A.loc(x)
+                bad = None
+                try:
+                    for env in ({"I0": 2, "k0": 1, "j": 3, "nx": 7, "I1": 4, "k1": 2, "ny": 5, "nx_i0": 2, "nx_i1": 3},
+                                {"I0": 0, "k0": 0, "j": 1, "nx": 5, "I1": 2, "k1": 1, "ny": 2, "nx_i0": 2, "nx_i1": 3},
+                                {"I0": 3, "k0": 2, "j": 0, "nx": 9, "I1": 0, "k1": 0, "ny": 4, "nx_i0": 3, "nx_i1": 6}):
+                        if pe.ev(r_, env) != env["I0"] + env["k0"] or pe.ev(c_, env) != env["j"] * env["nx"] + env["I1"] + env["k1"]:
+                            bad = env
+                            break
+                except pe.PEError as ex:
+                    rep.broke("P7: cannot evaluate the Hessian index `%s`: %s" % (A.show(e[2])[:50], ex))
+                    continue
+                rep.instance("P7", "dr_numerical", "H index @%s" % l, ok=bad is None, sample={"file": fe.rel(f), "line": l, "index": A.show(e[2])[:60]})
+                if bad:
+                    rep.violation(Finding("P7", "dr_numerical", "H index",
+                                          "the second difference of output j w.r.t. coordinates (I0+k0, I1+k1) is stored at `%s`; the documented layout is row I0 + k0, column "
+                                          "j*nx + I1 + k1 (one nx-wide block per output, stacked horizontally) -- they differ e.g. for %s" % (A.show(e[2])[:60], bad), f, l))
+    if found == 0:
+        rep.broke("P7: no assignment to H(row, col) found in dr_numerical")
+
+
 def check(rep, tier, replay=None):
     rep.explanations.append(
         "C08: P1 stack discipline of perturb/restore steps in dr_numerical (properly nested (E,-E) pairs with identical step "
@@ -432,3 +524,5 @@ def check(rep, tier, replay=None):
     check_p1(rep, A.index(d["dr_numerical"]))
     check_p2(rep)
     check_p3(rep, A.index(d["diff::dr"]))
+    check_p5(rep)
+    check_p6_p7(rep, A.index(d["diff::dr"]) + A.index(d["dr_numerical"]))
